@@ -111,6 +111,10 @@ MUTATIONS = {
     "py-reject-const": (sub(PYF, "UTF8_REJECT = 1", "UTF8_REJECT = 2"), True, "Python UTF8_REJECT = 2"),
     "selection-ignores-0": (sub(INIT, 'if env_val in ("0", "no", "false"):', 'if env_val in ("no", "false"):'), True,
                             "websocket/__init__.py: AUTOBAHN_USE_NVX=0 no longer disables NVX"),
+    "c-readd-reject-guard-table": (sub(CF, "   while (i < length) {\n      state = UTF8VALIDATOR_DFA[", "   while (i < length && state != 1) {\n      state = UTF8VALIDATOR_DFA["), True,
+                                   "C table loop: `&& state != 1` re-added to the while condition (F1 regression)"),
+    "c-readd-reject-guard-unrolled": (sub(CF, "   while (i < length) {\n\n      // get octet", "   while (i < length && state != 1) {\n\n      // get octet"), True,
+                                      "C unrolled loop: `&& state != 1` re-added to the while condition (F1 regression)"),
     "harmless-py": (py_reformat, False, "Python: table literals re-based (hex<->dec), state << 4 -> state * 16"),
     "harmless-c": (c_reorder, False, "C macro: two independent branches swapped, comparison order flipped, three == joined into a range"),
 }
